@@ -6,6 +6,7 @@ package core
 import (
 	"fmt"
 	"go/ast"
+	"go/build"
 	"go/token"
 	"go/types"
 	"os"
@@ -38,6 +39,10 @@ type Prog struct {
 	Inlined     []string
 	listOnly    bool
 	InlineOnly  map[string]bool // the helper selection this normal form was built with (nil = all eligible)
+	// files excluded by build constraints under the loaded configuration, and the GOOS/GOARCH settings
+	// ("GOOS=windows GOARCH=amd64") under which they would be built
+	ExcludedFiles []string
+	AltConfigs    []string
 	dropped     map[*ssa.Function]bool
 
 	roles *Roles
@@ -131,7 +136,33 @@ func Load(dir string, extraEnv ...string) (*Prog, error) {
 		return nil
 	})
 	if len(missing) > 0 {
-		return nil, fmt.Errorf("load %s: %d source files are in no loaded package (build constraints?): %v", dir, len(missing), missing)
+		// a file excluded by build constraints under this configuration is not part of this build. If another
+		// GOOS/GOARCH would include it, remember that configuration (the thorough tier analyses it as well);
+		// if no configuration without extra tags includes it (`//go:build ignore`, a custom tag), it is never built.
+		var unexplained []string
+		for _, f := range missing {
+			cfg, constrained := altConfigFor(f, extraEnv)
+			switch {
+			case !constrained:
+				unexplained = append(unexplained, f)
+			case cfg != "":
+				p.ExcludedFiles = append(p.ExcludedFiles, f+" (built under "+cfg+")")
+				seen := false
+				for _, c := range p.AltConfigs {
+					if c == cfg {
+						seen = true
+					}
+				}
+				if !seen {
+					p.AltConfigs = append(p.AltConfigs, cfg)
+				}
+			default:
+				p.ExcludedFiles = append(p.ExcludedFiles, f+" (needs a custom build tag: never part of a default build)")
+			}
+		}
+		if len(unexplained) > 0 {
+			return nil, fmt.Errorf("load %s: %d source files are in no loaded package although no build constraint excludes them: %v", dir, len(unexplained), unexplained)
+		}
 	}
 
 	if err := p.buildSSA(); err != nil {
@@ -334,4 +365,38 @@ func (p *Prog) FuncOf(obj *types.Func) *ssa.Function {
 		return nil
 	}
 	return fn
+}
+
+// altConfigFor: is file excluded by a build constraint under the current configuration (constrained), and
+// if so under which plain GOOS/GOARCH configuration would it be built ("" if none).
+func altConfigFor(file string, extraEnv []string) (cfg string, constrained bool) {
+	dir, name := filepath.Split(file)
+	cur := build.Default
+	cur.CgoEnabled = true
+	for _, kv := range extraEnv {
+		if strings.HasPrefix(kv, "GOARCH=") {
+			cur.GOARCH = strings.TrimPrefix(kv, "GOARCH=")
+		}
+		if strings.HasPrefix(kv, "GOOS=") {
+			cur.GOOS = strings.TrimPrefix(kv, "GOOS=")
+		}
+	}
+	if ok, err := cur.MatchFile(dir, name); err != nil || ok {
+		return "", false // not excluded by constraints: the loader should have seen it
+	}
+	for _, goos := range []string{"linux", "windows", "darwin", "freebsd"} {
+		for _, arch := range []string{"amd64", "386", "arm64"} {
+			c := build.Default
+			c.GOOS, c.GOARCH = goos, arch
+			c.CgoEnabled = false
+			if ok, err := c.MatchFile(dir, name); err == nil && ok {
+				return "GOOS=" + goos + " GOARCH=" + arch, true
+			}
+			c.CgoEnabled = true
+			if ok, err := c.MatchFile(dir, name); err == nil && ok {
+				return "GOOS=" + goos + " GOARCH=" + arch + " CGO_ENABLED=1", true
+			}
+		}
+	}
+	return "", true
 }
